@@ -325,6 +325,7 @@ class Session:
         cu, fr = self.cu, self.front
         self.emit('vnew', 'ok', 'vnew')
         self.emit('mode 1', 'ok', 'mode')
+        self.esc_seen = False
         v = CSSVariablesDeclaration()
         cu.log.raiseExceptions = True
         try:
@@ -367,6 +368,8 @@ class Session:
                     text = G.render_vitems(op[1])
                     r = self.call(lambda: setattr(v, 'cssText', text))
                     self.emit(' '.join(['vtext'] + words), r, ('vtext', text))
+                if k in ('vset', 'vseti') and G.py_normalize(G.py_normalize(op[1])) != G.py_normalize(op[1]):
+                    self.esc_seen = True      # from here on the block may be out of sync (known finding)
                 self.emit('vobs', vobs_impl(v), ('vobs after', op))
                 for nm in G.var_probe_names(op):
                     self.emit('vget %s' % enc(nm), enc(v.getVariableValue(nm)), ('vget', nm))
@@ -391,7 +394,11 @@ class Session:
         listed = G.list_variables(text)
         want = [(k, G.strip_comments(val)) for k, val in reported]
         if listed != want:
-            kn = 'C10-var-name-not-bare-ident' if any(not G.bare_ident(self.front, k) for k, _ in reported) else None
+            kn = None
+            if any(not G.bare_ident(self.front, k) for k, _ in reported):
+                kn = 'C10-var-name-not-bare-ident'
+            if any(G.py_normalize(k) != k for k, _ in reported) or self.esc_seen:
+                kn = 'C10-escaped-backslash-name'
             ctx.violate('variables block: the serialisation lists exactly the variables the API reports',
                         {'ops': self.history, 'cssText': text}, {'api': want, 'text_lists': listed}, known=kn)
 
@@ -639,6 +646,12 @@ class C10(Check):
                 v.setVariable(name, value)
             back = CSSVariablesDeclaration(cssText=v.cssText)
             return back.keys() != v.keys()
+        if finding['id'] == 'C10-escaped-backslash-name':
+            from cssutils.css import CSSStyleDeclaration
+            s = CSSStyleDeclaration()
+            for op in w['ops']:
+                s.setProperty(op[1], op[2], op[3])
+            return None in list(s) and len(s.keys()) == 1
         return True
 
     def replay(self, ctx, data):
